@@ -8,14 +8,15 @@
 //        lambda/mu/recomb/sigma0 = 0 -> library default      fid: objective id (see Obj::raw)   scale: objective multiplier
 //      -> "RUN"  then per step  "S t=.. val=.. fchk=.. ev=.. pt=.. mean=.. sig=.. C=.."  then "END"
 //   COR n lambda mu recomb sigma0 seed fid steps
-//      -> per step "U same=<0|1> perm=<0|1> | n lambda mu | consts | counter sigma | mean | C | pc | ps | B | ws | offspring | post.."
+//      -> per step "U same=<0|1> perm=<0|1> | n lambda mu | consts | counter sigma | mean | C | pc | ps | B | ws | offspring | post.. | eigenvalues(pre)"
 //   ECOR n seed fid steps active sigma0
 //      -> "E0 v0 anc.." then per step "E unp pen val anc.. sigma"
 //   P n lo hi penalty c x_1..x_n      -> "P unp pen"
 //   CH n alpha beta L[n*n] v[n]       -> "CH L'[n*n]" | "CH EXC"   (cholesky_decomposition::update, see doChol)
 //   SCOR n lambda mu sigma0 seed fid steps                (CMSA::updatePopulation, Cholesky-factor covariance)
 //      -> per step "SU same=<0|1> perm=<0|1> | n lambda mu | cC | sigma | mean | L | offspring fit;x;step;sigma_i .. | sigma' | mean' | L' | best | bestpoint"
-//         (L, L': full n*n lower Cholesky factor, row major; "| EXC" replaces the post part if updatePopulation throws)
+//         (L, L': full n*n lower Cholesky factor, row major; "| EXC" replaces the post part if updatePopulation throws);
+//         the complete line ends with "| cSigma | z;g .." = the standard normal draws of generateOffspring read back (z: n per offspring, g: step size)
 //   CCOR n seed fid steps active sigma0                   (CMAChromosome updates inside ElitistCMA::step)
 //      -> per step "CU same=<0|1> | n | cp d ptarget cc ccov cu pthresh | active | ancestral window | penalized fitness
 //                   | L | pc | lastStep | lastZ | sigma psucc | L' | pc' | sigma' psucc'"     (pre = after mutate, post = after step; "| EXC" if step throws)
@@ -259,6 +260,7 @@ static void doCor(std::istringstream& is, std::ostream& out) {
 			  << " | " << hx(b.m_cC) << " " << hx(b.m_c1) << " " << hx(b.m_cMu) << " " << hx(b.m_cSigma) << " " << hx(b.m_dSigma) << " " << hx(b.m_muEff)
 			  << " | " << b.m_counter << " " << hx(b.m_sigma) << " | " << hv(b.m_mean) << " | " << hm(b.covarianceMatrix()) << " | " << hv(b.m_evolutionPathC)
 			  << " | " << hv(b.m_evolutionPathSigma) << " | " << hm(b.eigenVectors()) << " | " << hv(b.m_weights) << " |";
+			std::string eigPre = hv(b.eigenValues());        // of the PRE state: generateOffspring samples Q diag(sqrt(max(lambda,0))) z
 			a.step(f);
 			std::vector<CMA::IndividualType> off = b.generateOffspring();
 			PenalizingEvaluator ev; ev.m_numEvaluations = b.m_numEvaluations;
@@ -271,7 +273,7 @@ static void doCor(std::istringstream& is, std::ostream& out) {
 			bool permSame = sameState(b, c);
 			// sigma before the lower-bound clamp cannot be read back; the clamp is inactive unless sigma*sqrt(ev) < 1e-40
 			l << " | " << hx(b.m_sigma) << " | " << hv(b.m_mean) << " | " << hm(b.covarianceMatrix()) << " | " << hv(b.m_evolutionPathC) << " | " << hv(b.m_evolutionPathSigma)
-			  << " | " << hx(b.solution().value) << " | " << hv(b.solution().point);
+			  << " | " << hx(b.solution().value) << " | " << hv(b.solution().point) << " | " << eigPre;
 			out << "U same=" << (sameState(a, b) ? 1 : 0) << " perm=" << (permSame ? 1 : 0) << l.str() << "\n";
 		}
 	} catch (std::exception const& e) { out << "EXC " << e.what() << "\n"; }
@@ -338,7 +340,12 @@ static void doScor(std::istringstream& is, std::ostream& out) {
 			  << " | " << hm(b.m_mutationDistribution.lowerCholeskyFactor()) << " |";
 			bool aThrew = false, bThrew = false, cThrew = false;
 			try { a.step(f); } catch (std::exception const&) { aThrew = true; }
+			random::rng_type keepB = rngB;
 			std::vector<CMSA::IndividualType> off = b.generateOffspring();
+			// the draws generateOffspring consumed, in its order: n standard normals (z), then one for the individual step size
+			std::ostringstream dr;
+			{ random::rng_type r = keepB;
+			  for (std::size_t i = 0; i < off.size(); ++i) { RealVector z(n); for (std::size_t j = 0; j < n; ++j) z(j) = random::gauss(r, 0, 1); double gs = random::gauss(r, 0, 1); dr << " " << hv(z) << ";" << hx(gs); } }
 			PenalizingEvaluator ev;
 			ev(g, off.begin(), off.end());
 			for (std::size_t i = 0; i < off.size(); ++i)
@@ -352,7 +359,7 @@ static void doScor(std::istringstream& is, std::ostream& out) {
 				break;     // the factor is half-updated after the throw; nothing meaningful follows
 			}
 			l << " | " << hx(b.m_sigma) << " | " << hv(b.m_mean) << " | " << hm(b.m_mutationDistribution.lowerCholeskyFactor())
-			  << " | " << hx(b.solution().value) << " | " << hv(b.solution().point);
+			  << " | " << hx(b.solution().value) << " | " << hv(b.solution().point) << " | " << hx(b.m_cSigma) << " |" << dr.str();
 			out << "SU same=" << ((!aThrew && sameCmsa(a, b)) ? 1 : 0) << " perm=" << ((!cThrew && sameCmsa(b, c)) ? 1 : 0) << l.str() << "\n";
 		}
 	} catch (std::exception const& e) { out << "EXC " << e.what() << "\n"; }
